@@ -341,10 +341,26 @@ func c07Check(a *artefacts, tier string, seed uint64, replay string) int {
 				continue
 			}
 			rel := strings.TrimPrefix(k, "$OUT/")
+			if hash64s(rel)%3 == 0 && len(c) > 0 {
+				// a file of exactly the size of the new one, with other bytes (an earlier run on a slightly
+				// different input, or an edit in place): size alone says nothing about content
+				same := []byte(c)
+				for i := range same {
+					if i%5 == 0 && ((same[i] >= 'a' && same[i] <= 'z') || (same[i] >= 'A' && same[i] <= 'Z')) {
+						same[i] ^= 0x20
+					}
+				}
+				pair.Stale[rel] = same
+				continue
+			}
 			old := []byte("// left over from an earlier run\n")
-			for _, ob := range other {
-				old = append([]byte(nil), ob...)
-				break
+			if len(other) > 0 {
+				oks := make([]string, 0, len(other))
+				for ok := range other {
+					oks = append(oks, ok)
+				}
+				sort.Strings(oks)
+				old = append([]byte(nil), other[oks[0]]...)
 			}
 			for len(old) < len(c)+512 {
 				old = append(old, []byte("// stale tail of an earlier run\n")...)
@@ -1021,4 +1037,13 @@ func c07Later(r *simrt.Rand) int64 {
 	default:
 		return int64(time.Hour) * int64(1+r.Intn(26000))
 	}
+}
+
+func hash64s(s string) uint64 {
+	h := uint64(14695981039346656037)
+	for i := 0; i < len(s); i++ {
+		h ^= uint64(s[i])
+		h *= 1099511628211
+	}
+	return h
 }
